@@ -24,7 +24,7 @@ func emit(v interface{}) {
 
 func main() {
 	if len(os.Args) < 2 {
-		fmt.Fprintln(os.Stderr, "usage: ps <complete|perturb|malformed> [flags]")
+		fmt.Fprintln(os.Stderr, "usage: ps <complete|perturb|reuse|malformed> [flags]")
 		os.Exit(2)
 	}
 	cmd := os.Args[1]
@@ -50,6 +50,8 @@ func main() {
 		runComplete(*seed, thorough)
 	case "perturb":
 		runPerturb(*seed, thorough)
+	case "reuse":
+		runReuse(*seed, thorough)
 	case "malformed":
 		runMalformed(*seed, thorough)
 	default:
